@@ -446,6 +446,59 @@ class UserInstance(Model):
         return m.clo(self) if m is not None else self.__repr__()
 
 
+def _install_operator_dunders():
+    """Operators on instances of evaluated classes go to the class's own special methods (`__neg__`, `__or__`, `__radd__` ...);
+    without one the operation is not supported, as in CPython (a NamedTuple still concatenates / repeats like a tuple)."""
+    def unary(name):
+        def f(self):
+            m = self._uc_special(name)
+            if m is None:
+                raise TypeError(f"bad operand type for unary {name}: '{self._uc_class._uc_name}'")
+            return m.clo(self)
+
+        f.__name__ = name
+        return f
+
+    def binary(name):
+        def f(self, other):
+            m = self._uc_special(name)
+            if m is not None:
+                return m.clo(self, other)
+            if self._uc_class._uc_kind == "namedtuple" and name in ("__add__", "__mul__", "__rmul__"):
+                o = other._uc_tuple() if isinstance(other, UserInstance) and other._uc_class._uc_kind == "namedtuple" else other
+                return getattr(self._uc_tuple(), name)(o)
+            if not name.startswith("__r") and isinstance(other, UserInstance) and other._uc_class is not self._uc_class:
+                # (all evaluated instances share one Python type, so CPython's "try the reflected method of the other class" step is made here)
+                rm = other._uc_special("__r" + name[2:])
+                if rm is not None:
+                    return rm.clo(other, self)
+            return NotImplemented
+
+        f.__name__ = name
+        return f
+
+    for nm in ("__neg__", "__pos__", "__invert__", "__abs__"):
+        setattr(UserInstance, nm, unary(nm))
+    for base in ("add", "sub", "mul", "matmul", "truediv", "floordiv", "mod", "pow", "lshift", "rshift", "and", "or", "xor"):
+        for nm in (f"__{base}__", f"__r{base}__"):
+            setattr(UserInstance, nm, binary(nm))
+    for nm in ("__le__", "__gt__", "__ge__"):
+        if nm not in UserInstance.__dict__:
+            def cmp(self, other, nm=nm):
+                m = self._uc_special(nm)
+                if m is not None:
+                    return m.clo(self, other)
+                if self._uc_class._uc_kind == "namedtuple" or self._uc_class._uc_opts.get("order"):
+                    return getattr(self._uc_tuple(), nm)(other._uc_tuple() if isinstance(other, UserInstance) else other)
+                return NotImplemented
+
+            cmp.__name__ = nm
+            setattr(UserInstance, nm, cmp)
+
+
+_install_operator_dunders()
+
+
 def namedtuple_factory(typename, field_names, *, rename=False, defaults=None, module=None):
     if isinstance(field_names, str):
         field_names = field_names.replace(",", " ").split()
@@ -537,11 +590,25 @@ def build_class(cdef, interp):
                 prop.setter = interp.make_closure(st)
                 ns[st.name] = prop
                 continue
-            unknown = decs - {"staticmethod", "classmethod", "property", "lru_cache", "cache", "cached_property", "wraps", "abstractmethod", "override", "final"}
-            if unknown:
-                raise Unsupported(f"decorator(s) {sorted(unknown)} on {cdef.name}.{st.name}")
+            known_ = {"staticmethod", "classmethod", "property", "lru_cache", "cache", "cached_property", "wraps", "abstractmethod", "override", "final"}
+            unknown = decs - known_
+            dnames_ = [ast.unparse(d).split("(")[0].split(".")[-1] for d in st.decorator_list]
+            user_decs_ = [d for d, nm_ in zip(st.decorator_list, dnames_) if nm_ not in known_]
+            if unknown and any(nm_ not in known_ for nm_ in dnames_[: len(dnames_) - len(user_decs_)]):
+                raise Unsupported(f"decorator(s) {sorted(unknown)} on {cdef.name}.{st.name} (above a library decorator)")
             # methods resolve free names in the enclosing (module / function) scope, not in the class body
             clo = interp.make_closure(st)
+            for dec_ in reversed(user_decs_):
+                # a decorator the evaluated code defines itself (`@_guarded def build(self)`): applied to the plain function, innermost first
+                try:
+                    dv_ = bi.me.ev(dec_)
+                except Unsupported as e_:
+                    raise Unsupported(f"decorator {ast.unparse(dec_)[:40]} on {cdef.name}.{st.name}: {e_}")
+                if not callable(dv_):
+                    raise Unsupported(f"decorator {ast.unparse(dec_)[:40]} on {cdef.name}.{st.name}")
+                clo = dv_(clo)
+                if not callable(clo):
+                    raise Unsupported(f"decorator {ast.unparse(dec_)[:40]} on {cdef.name}.{st.name} does not give a function")
             if decs & {"lru_cache", "cache"} and not decs & {"staticmethod", "classmethod"}:
                 # functools.lru_cache on a method: results are remembered per (object, arguments)
                 def _cached(inner, mname):
@@ -646,6 +713,18 @@ def build_builtin_subclass(cdef, interp, base, class_kwargs=None):
             clo = interp.make_closure(st)
             closures.append(clo)
             plain = (lambda c: (lambda self, *a, **k: c(self, *a, **k)))(clo)
+            if st.name == "__missing__":
+                # called by the container's own lookup (`d[k]`, `str.translate(d)`), which understands CPython's LookupError: a
+                # KeyError / IndexError raised by the evaluated body crosses that boundary as the real exception
+                def plain(self, *a, _c=clo, **k):
+                    from .minieval import exception_matches
+                    try:
+                        return _c(self, *a, **k)
+                    except ModelRaise as mr:
+                        for real_ in (KeyError, IndexError):
+                            if exception_matches(getattr(mr, "raised_as", mr.kind), real_.__name__):
+                                raise real_(*a) from mr
+                        raise
             if "staticmethod" in decs:
                 ns[st.name] = staticmethod((lambda c: (lambda *a, **k: c(*a, **k)))(clo))
             elif "classmethod" in decs or st.name in ("__init_subclass__", "__class_getitem__"):
